@@ -321,7 +321,9 @@ theorem tempsInv_step (info : CompId → CompInfo) (w : WM) (op : Op Handle) (ho
     unfold WM.destroy
     split
     · exact tempsInv_pushCmd_other info w t _ (fun _ => rfl) h
-    · exact fun c hc => h c hc
+    · split
+      · exact fun c hc => h c hc
+      · exact h
   | destroyNow t e =>
     show TempsInv info (w.destroyNow info t e).1
     unfold WM.destroyNow
